@@ -296,3 +296,12 @@ def metadata_provenance(ctx):
     ctx.check(bool(up) and arg(up[-1], 0) == V('info'), R, 'attrs-updated', ctx.where(fw, up[-1] if up else None),
               found=[T.show(e.term) for e in up], expected='grp.attrs.update(info)',
               reason='the info dict (with metadata and assembly) is what is written to the group attributes')
+
+
+_run_core = run
+
+
+def run(ctx):
+    _run_core(ctx)
+    from . import refs_misc
+    refs_misc.run_for(ctx, 'C01')
